@@ -70,7 +70,9 @@ func (c *Cfg) proposerIdx(h uint64, r int) int {
 	return c.Tbl[k]
 }
 
-func (c *Cfg) Proposer(h types.Height, r types.Round) Adr { return addr(c.proposerIdx(uint64(h), int(r))) }
+func (c *Cfg) Proposer(h types.Height, r types.Round) Adr {
+	return addr(c.proposerIdx(uint64(h), int(r)))
+}
 
 func (c *Cfg) valid(v uint64) bool { return c.VMod == 0 || v%c.VMod != c.VRem }
 
